@@ -25,7 +25,30 @@ func (c *checker) hook(e *sim.Ev) {
 		}
 		if nw == Candidate {
 			c.cov("candidate")
+			// C07: a server that is not a voter in its own durable configuration does not
+			// campaign (a TimeoutNow from a leadership transfer is the one exception)
+			if _, tn := c.timeoutNow[e.S]; !tn {
+				_, lc := s.disk.latestLogCfg()
+				ok := lc == "" && s.disk.newest() == nil
+				if lc != "" && ParseCfg(lc).IsVoter(e.S) {
+					ok = true
+				}
+				for _, p := range s.disk.cfgs {
+					if ParseCfg(p).IsVoter(e.S) {
+						ok = true // an entry further down may be the one in force after a truncation
+					}
+				}
+				for _, sn := range s.disk.snaps {
+					if sn.done && ParseCfg(sn.cfg).IsVoter(e.S) {
+						ok = true
+					}
+				}
+				if !ok {
+					c.violate("C07", "non-voter-campaigns", e.Seq, "%s became candidate but no configuration in its log or snapshots lists it as a voter (latest in its log: [%s])", key, lc)
+				}
+			}
 		}
+		delete(c.timeoutNow, e.S)
 		c.ext.state(c, s, key, old, nw, term, e)
 	case "h.term":
 		old, nw := e.A, e.B
